@@ -264,7 +264,16 @@ def family_of(ph):
     return "hull-%dv" % nv
 
 
+def _axis_unit(rng):
+    v = [F(0), F(0), F(0)]
+    v[rng.randrange(3)] = F(rng.choice((1, -1)))
+    return tuple(v)
+
+
 def rand_flat(rng, kind):
+    if kind in ("L", "H", "PL") and rng.random() < 0.07:
+        # direction / normal of length exactly 1 along a coordinate axis (the only unit vectors on the lattice)
+        return (kind, rpt(rng), _axis_unit(rng))
     if kind == "P":
         return ("P", rpt(rng))
     if kind == "L":
